@@ -78,6 +78,15 @@ def strat_case(maxn):
             else:
                 ok = ok and sr.result is raised_objs[i]          # the error the source raised, itself
         ctx.prove(ok, "each-outcome-reported")
+        # a strategy object may be used again: the second run reports its own attempts only
+        n1 = len(res)
+        del calls[:]
+        try:
+            res2 = st.authenticate(token)
+        except AuthFailure as e:
+            res2 = e.result
+        ctx.prove(len(res2) == n1 and [sr.source for sr in res2] == [srcs[i] for i in expect_tried],
+                  "a-second-run-on-the-same-strategy-reports-only-its-own-attempts")
     return Case("authenticate<=%d" % maxn, fn,
                 ["raises-AuthFailure-iff-no-success", "sources-tried-in-order-stop-at-first-success",
                  "result-lists-each-attempted-source", "each-outcome-reported"],
